@@ -312,15 +312,17 @@ def run_replay(args, timeout=1200, profile="release"):
     try:
         j = json.loads(o)
     except Exception:
-        if rc < 0 and "--trace" not in args:
-            # the real crate killed the process (abort: non-unwinding panic / unsafe-precondition check / UB trap).
+        if (rc < 0 or rc == 101) and "--trace" not in args:
+            # the real crate killed the process (abort: non-unwinding panic / unsafe-precondition check / UB trap), or panicked
+            # (exit status 101) at a call the enumeration does not expect to panic (the calls a property allows to panic are
+            # wrapped in fw::guarded), e.g. an arithmetic overflow check in a debug-assertions build.
             # Re-run with a trace file to identify the case; this is a crash of the real code on a concrete input.
             tf = os.path.join(BUILD, "replay-trace-%d.txt" % os.getpid())
             rc2, o2, e2, w2 = sh([b] + args + ["--trace", tf], timeout=timeout)
             case = open(tf).read() if os.path.exists(tf) else "?"
             msg = (e2 or e).strip().splitlines()[-1:] or ["process aborted"]
             return {"name": args[0], "bound": "aborted before completion", "evaluations": 0, "distinct_nontrivial": 0, "samples": [],
-                    "failures": [{"case": case, "props": "", "what": "the real crate aborted the process on this input (signal %d): %s" % (-rc, msg[0][:200]),
+                    "failures": [{"case": case, "props": "", "what": ("the real crate aborted the process on this input (signal %d): %s" % (-rc, msg[0][:200])) if rc < 0 else ("the real crate panicked on this input, where the property admits no panic: %s" % " | ".join(l.strip() for l in (e2 or e).strip().splitlines()[:2])[:300]),
                                   "detail": {"stderr": (e2 or e)[-600:]}}],
                     "wall_s": w + w2, "cmd": "replay " + " ".join(args), "aborted": True}
         raise Inconclusive("tool-error", "replay %s: rc=%d %s" % (" ".join(args), rc, (e or o)[-1500:]))
